@@ -135,11 +135,7 @@ void vp_returned(u32 tid) {
   left_[tid] = 1;
 }
 
-#ifdef CPRE
-#define SEED 12345u          /* RNG state only matters through `% range`; concrete together with PRE */
-#else
-#define SEED ((u32)vp_nd())
-#endif
+#define SEED ((u32)vp_nd())   /* RNG state of each thread: symbolic */
 int main(void) {
   VP_ASSERT(vp_sizeof_scope() <= sizeof(SCOPE[0]), "nested_arena_context grew beyond the harness storage");
   VP_ASSERT(vp_sizeof_arena() == sizeof(arena_t) && vp_sizeof_slot() == sizeof(AMEM.more[0]) && vp_sizeof_outbox() == sizeof(AMEM.mb[0]) && vp_sizeof_td() == sizeof(td_t)
@@ -156,7 +152,12 @@ int main(void) {
   for (unsigned t = 0; t < NT; t++) { vp_td_setup(&TDS[t], &OUTER[t], HOME, (u16)t, SEED, SEED); }
   /* the slot hint used by occupy_free_slot is my_arena_index = the thread's index in its home arena (tid) */
 #ifdef CK1   /* placement concrete per query (scenario) */
-  K1 = CK1; K2 = CK2;
+  K1 = CK1;
+#ifdef CK2
+  K2 = CK2;
+#else
+  K2 = (unsigned)vp_nd_range(CK1, 11);      /* where T1 leaves: solver's choice */
+#endif
 #else
   K1 = (unsigned)vp_nd_range(0, NPOINTS); K2 = (unsigned)vp_nd_range(0, NPOINTS);
   __CPROVER_assume(K1 <= K2);
